@@ -674,11 +674,12 @@ EXPECT = ["C15.maxstep.every_component_of_an_inserted_point_repeats_its_own_pred
           "C15.path_value_is_jump_plus_diffusion_each_time_it_is_read", "C15.reading_the_path_value_leaves_its_components_unchanged",
           "C15.chain.jumptimes.jump_component_is_running_sum_over_the_whole_path", "C15.chain.jumptimes.one_sampled_increment_per_jump",
           "C15.copula.fixed.a_path_is_produced_for_every_number_of_product_dates",
-          "C15.copula.coupled_maxstep.each_level_refines_with_its_own_cap"]
+          "C15.copula.coupled_maxstep.each_level_refines_with_its_own_cap",
+          "C15.copula.chain.diffusion_component_is_running_sum_of_scaled_correlated_normals"]
 
 
 def main(tier):
-    bounds = {"histories_and_variants": 'path.value() read twice; chain simulator at jump times: <= 2 (quick) / 3 product-date intervals, 0..2 jumps each, scripted increments',
+    bounds = {"histories_and_variants": 'path.value() read twice; chain simulator at jump times: <= 2 (quick) / 3 product-date intervals, 0..2 jumps each, scripted increments; copula chain at 1-2 fixed dates (concrete models, solver-chosen jump counts); copula coupling through two next_level calls with caps 1/k1 > 1/k2; copula-chain Brownian part over 2 steps',
               "dates": "<= 2 (quick) / 3 (thorough) product dates, symbolic", "jumps": "jump-time mode: (dates, jumps per interval) <= (1,2), (2,2) quick; plus (1,4), (3,1) thorough; fixed-date mode <= 2 jumps per interval; "
               "<= 2/3 jump times for the refinement, every gap below 3 epsilon",
               "outside": "copula and coupled simulators' path assembly (same helpers; their jump values are C01/C03), float rounding of cumulative sums"}
